@@ -9,7 +9,7 @@ Open Scope N_scope.
 (* character level arithmetic                                                                  *)
 
 Ltac unfold_chars :=
-  unfold is_digit, is_sign, is_space, is_quote, is_upper, is_lower,
+  unfold is_digit, is_sign, is_space, is_uni_space, is_quote, is_upper, is_lower,
     c_tab, c_lf, c_vt, c_ff, c_cr, c_sp, c_dq, c_hash, c_dollar, c_sq, c_lpar, c_rpar, c_star,
     c_plus, c_comma, c_minus, c_dot, c_slash, c_colon, c_semi, c_lt, c_gt, c_lbrk, c_bsl, c_rbrk,
     c_us, c_lbrace, c_rbrace, c_E, c_e in *.
